@@ -27,7 +27,7 @@ from bytecode.instr import CellVar, FreeVar
 import pynguin.assertion.assertion as ass
 import pynguin.slicer.executedinstruction as ei
 import pynguin.utils.typetracing as tt
-from pynguin.instrumentation import PynguinCompare, version
+from pynguin.instrumentation import AST_FILENAME, PynguinCompare, version
 from pynguin.utils.exceptions import TracingAbortedException
 from pynguin.utils.orderedset import OrderedSet
 from pynguin.utils.type_utils import (
@@ -460,14 +460,17 @@ class SubjectProperties:
         """Get the existing code objects that do not contain a branch.
 
         Every code object is initially seen as branch-less until a predicate is registered for it.
+        The code objects of test-case statements, which the checked-coverage instrumentation of
+        the executor registers for slicing, are not part of the subject and thus no coverage goals.
 
         Returns:
             The existing code objects that do not contain a branch.
         """
         return (
             code_object_id
-            for code_object_id in self.existing_code_objects
-            if all(
+            for code_object_id, code_object in self.existing_code_objects.items()
+            if code_object.code_object.co_filename != AST_FILENAME
+            and all(
                 code_object_id != metadata.code_object_id
                 for metadata in self.existing_predicates.values()
             )
